@@ -27,8 +27,12 @@ Inductive case :=
        failed), and the harness' own evaluation of the theorems' hypotheses on this input *)
 | CJoin (p i r : str)
     (* ObjClassName::from_inner_class *)
-| CInner (s : str) (parent inner : option str).
+| CInner (s : str) (parent inner : option str)
     (* get_inner_class_parent / get_inner_class_name *)
+| CSimple (s r : str)
+    (* ObjClassNameSlice::get_simple_name *)
+| CValid (s : str) (b : bool).
+    (* ObjClassName::check_valid(s).is_ok() *)
 
 Definition rebuild (M : mappings) (ons : option nat) (r : res col) : res mappings :=
   match r with
@@ -57,4 +61,6 @@ Definition check (c : case) : bool :=
   | CInner s p i =>
       opt_eqb str_eqb (match split_inner s with Some (p', _) => Some p' | None => None end) p
       && opt_eqb str_eqb (match split_inner s with Some (_, i') => Some i' | None => None end) i
+  | CSimple s r => str_eqb (get_simple_name s) r
+  | CValid s b => Bool.eqb (is_valid_obj_class_name s) b
   end.
